@@ -93,11 +93,110 @@ class PermSet(_builtin_set):
     def __iter__(self):
         return iter(CTL.order(list(self._order)))
 
+    # ---- set algebra: results stay under the explorer's control, in an order that does not depend on hashes ----
+    def union(self, *others):
+        r = PermSet(self._order)
+        r.update(*others)
+        return r
+
+    def intersection(self, *others):
+        others = [o if isinstance(o, (_builtin_set, frozenset, dict)) else _builtin_set(o) for o in others]
+        return PermSet([x for x in self._order if all(x in o for o in others)])
+
+    def difference(self, *others):
+        others = [o if isinstance(o, (_builtin_set, frozenset, dict)) else _builtin_set(o) for o in others]
+        return PermSet([x for x in self._order if not any(x in o for o in others)])
+
+    def symmetric_difference(self, other):
+        other = _ordered(other)
+        mine = _builtin_set(self._order)
+        theirs = _builtin_set(other)
+        return PermSet([x for x in self._order if x not in theirs] + [x for x in other if x not in mine])
+
+    def _binop(name):
+        def op(self, other):
+            if not isinstance(other, (_builtin_set, frozenset)) and not hasattr(other, "isdisjoint"):
+                return NotImplemented
+            return getattr(self, name)(other)
+
+        return op
+
+    __or__, __and__, __sub__, __xor__ = _binop("union"), _binop("intersection"), _binop("difference"), _binop("symmetric_difference")
+
+    def __ror__(self, other):
+        return PermSet(_ordered(other)).union(self)
+
+    def __rand__(self, other):
+        return PermSet(_ordered(other)).intersection(self)
+
+    def __rsub__(self, other):
+        return PermSet(_ordered(other)).difference(self)
+
+    def __rxor__(self, other):
+        return PermSet(_ordered(other)).symmetric_difference(self)
+
+    def _inplace(name):
+        def op(self, *others):
+            r = getattr(self, name)(*others)
+            _builtin_set.clear(self)
+            self._order = []
+            for x in r._order:
+                self.add(x)
+
+        return op
+
+    difference_update, intersection_update, symmetric_difference_update = _inplace("difference"), _inplace("intersection"), _inplace("symmetric_difference")
+
+    def __isub__(self, other):
+        self.difference_update(other)
+        return self
+
+    def __iand__(self, other):
+        self.intersection_update(other)
+        return self
+
+    def __ixor__(self, other):
+        self.symmetric_difference_update(other)
+        return self
+
+    del _binop, _inplace
+
     def copy(self):
         return PermSet(self._order)
 
     def __reduce__(self):
         return (PermSet, (list(self._order),))
+
+
+def _ordered(x):
+    """Elements of an operand of set algebra in an order of its own: insertion order for PermSets, dicts, dict views and
+    sequences; for a plain hash set there is none - sorted by repr where possible (a stable stand-in)."""
+    if isinstance(x, PermSet):
+        return list(x._order)
+    if isinstance(x, (_builtin_set, frozenset)):
+        try:
+            return sorted(x, key=repr)
+        except Exception:
+            return list(x)
+    return list(x)
+
+
+def own_setop(opname, a, b):
+    """`a <op> b` for op in - | & ^, as compiled by hv/setseam.py for every such expression in the hdl21 sources: computed
+    as usual; if the result is a plain hash set (set algebra of dict views, of plain sets) it is handed back as a PermSet
+    whose default order follows the operands' own order."""
+    import operator
+
+    r = {"sub": operator.sub, "or": operator.or_, "and": operator.and_, "xor": operator.xor}[opname](a, b)
+    if type(r) is _builtin_set:
+        seen, order = _builtin_set(), []
+        for src in (a, b):
+            for x in _ordered(src):
+                if x in r and x not in seen:
+                    seen.add(x)
+                    order.append(x)
+        return PermSet(order)
+    return r
 
 
 def install():
